@@ -26,6 +26,7 @@ REWRITES = {
     'R9': 'result named: -> T  becomes  -> (r: T)',
     'R10': 'async erased: async fn -> fn, .await deleted',
     'R11': 'derive(Clone) expanded to field-wise impl with assumed clone(x)==x',
+    'R13': 'enum tuple-variant constructor used as a function value is eta-expanded: f(Variant) -> f(|x| Variant(x))',
     'R12': 'derive(Default) expanded to the field-wise impl the derive generates (inside verus!, verified, not assumed)',
 }
 
@@ -673,6 +674,8 @@ pub assume_specification [<{q} as PartialEq>::eq] (a: &{q}, b: &{q}) -> (r: bool
         for at in e.get('attrs', []):
             text = text.replace(src[at['span'][0]:at['span'][1]].decode(), '')
         self.extracted.append((path, f'const {(impl + "::") if impl else ""}{name}'))
+        # an elided lifetime in a const type is 'static by definition; the verus! macro wants it spelled out
+        text = re.sub(r'(const\s+\w+\s*:\s*)&(?!\')', r"\1&'static ", text)
         if ensures is None:
             return [Seg(text.strip() + '\n')]
         m = re.match(r'\s*(pub(?:\([a-z]+\))?\s+)?const\s+(\w+)\s*:\s*(.+?)\s*=\s*(.+);\s*$', text.strip(), re.S)
@@ -799,10 +802,13 @@ def map_diag(d, spans, fnspans):
     fn = None
     for sp in d.get('spans', []):
         bs0, be0 = sp['byte_start'], sp['byte_end']
-        for (s, e, cid, f) in spans:
-            if bs0 < e and be0 > s:
-                if cid not in clauses:
-                    clauses.append(cid)
+        lab = (sp.get('label') or '')
+        # only the span that names the failing clause counts (not "at the end of the function body" / "at this exit")
+        if sp.get('is_primary') or 'failed' in lab:
+            for (s, e, cid, f) in spans:
+                if bs0 < e and be0 > s:
+                    if cid not in clauses:
+                        clauses.append(cid)
         if sp.get('is_primary') or fn is None:
             for f, (lo, hi) in fnspans.items():
                 if lo <= bs0 < hi:
